@@ -248,7 +248,6 @@ func (s *amSchema) render(format string) []byte {
 	return s.renderCUE()
 }
 
-
 // irFeatures describes the shapes present in a (minimised) input IR; used to key findings by root
 // cause instead of by position.
 func irFeatures(schemas ast.Schemas) string {
